@@ -17,6 +17,11 @@ def directed(rng, thorough):
     for size in range(0, 13):
         for fl in flag_bytes:
             out.append(R.RxCase([("weird-header", R.weird_header(rng, size=size, flags=fl)), ("valid", probe1), ("valid", probe2)], []))
+    # checksum-valid headers with bodies too short for their kind but a valid body checksum (every flag kind x 0..6 body bytes)
+    for fl in (0x40, 0xC0, 0x44, 0xCC, 0x00, 0x80, 0x08, 0x01, 0x31, 0x41):
+        for nb in range(0, 7):
+            out.append(R.RxCase([("short-body-valid-crc", R.short_body_frame(rng, fl, nb)), ("valid", probe1), ("valid", probe2)], []))
+            out.append(R.RxCase([("short-body-valid-crc", R.short_body_frame(rng, fl, nb)), ("valid", probe1), ("valid", probe2)], [7, 9]))
     # ACKs for every sequence value in every link state
     for aseq in range(4):
         for ps in range(4):
